@@ -92,6 +92,7 @@ def parseScript (rid : Nat) (keepEmpty : Bool) (s : String) : List BodyTok :=
 structure ReqSpec where
   facts : ReqFacts
   bad : Bool
+  huge : Bool := false
   chunkSizes : List Nat
   espec : ESpec
   deriving Inhabited
@@ -99,6 +100,7 @@ structure ReqSpec where
 def parseReq (rid : Nat) (s : String) : ReqSpec :=
   let dflt : ReqFacts := { rid, isHead := false, version := .h11, conn := .keepAlive, expect := false, body := .none }
   if s == "X" then { facts := dflt, bad := true, chunkSizes := [], espec := .ok 0 }
+  else if s == "L" then { facts := dflt, bad := true, huge := true, chunkSizes := [], espec := .ok 0 }
   else
     match s.splitOn ":" with
     | [m, v, c, b, x] =>
@@ -106,7 +108,9 @@ def parseReq (rid : Nat) (s : String) : ReqSpec :=
       let conn := if c == "c" then ConnType.close else if c == "k" then .keepAlive else if c == "u" then .upgrade
                   else if version == .h10 then .close else .keepAlive
       let (body, sizes) : ReqBody × List Nat :=
-        if b == "n" then (.none, [])
+        -- `U`: `upgrade: websocket` (not chunked) ⇒ `PayloadType::Stream`
+        if m == "U" && !b.startsWith "c" then (.stream, [])
+        else if b == "n" then (.none, [])
         else if b.startsWith "l" then
           let n := natOf (b.drop 1).toString
           (if n == 0 then .none else .length n, [])
@@ -184,9 +188,9 @@ def parseUnit (reqs : List ReqSpec) (u : String) : Option RUnit :=
   match reqs[i]? with
   | none => none
   | some r =>
-    if rest == "h" then some (if r.bad then .bad else .head r.facts)
-    else if rest == "ha" then some (if r.bad then .badA else .headA r.facts)
-    else if rest == "hb" then some (if r.bad then .badB else .headB r.facts)
+    if rest == "h" then some (if r.huge then .huge else if r.bad then .bad else .head r.facts)
+    else if rest == "ha" then some (if r.huge then .hugeA else if r.bad then .badA else .headA r.facts)
+    else if rest == "hb" then some (if r.huge then .hugeB else if r.bad then .badB else .headB r.facts)
     else if rest == "z" then some .last
     else if rest.startsWith "b" then some (.body (natOf (rest.drop 1).toString))
     else if rest.startsWith "c" then some (.chunk ((r.chunkSizes[natOf (rest.drop 1).toString]?).getD 0))
@@ -213,7 +217,7 @@ def runWorld (line : String) : Option (Σ cfg : Cfg, World cfg) :=
   match kv ws "ka", kv ws "dt", kv ws "hc", kv ws "wb" with
   | some ka, some dt, some hc, some wb =>
     let cfg : Cfg := { kaEnabled := ka == "1", kaTimeout := ka == "1", reqTimeout := true, discTimeout := dt == "1",
-                       allowHalfClosed := hc == "1", writeBufSize := natOf wb }
+                       allowHalfClosed := hc == "1", writeBufSize := natOf wb, upgrade := kv ws "up" == some "1" }
     let reqs := (enumFrom 0 (listOf ws "q" ";")).map fun (i, s) => parseReq i s
     let hs := (enumFrom 0 (listOf ws "h" ";")).map fun (i, s) => parseHandler i s
     let w : World cfg :=
@@ -226,7 +230,7 @@ def showWorld {cfg : Cfg} (w : World cfg) : String :=
   let (cw, t) := canonWire w.wire
   let reads := if w.rlog.isEmpty then "-" else
     joinWith "," (w.rlog.map fun (r, n, e) => toString r ++ ":" ++ toString n ++ ":" ++ e)
-  "W=" ++ hexOrDash cw ++ " T=" ++ toString t ++ " C=" ++ showNats w.calls ++ " X=" ++ showNats w.xcalls ++
+  "W=" ++ hexOrDash cw ++ " T=" ++ toString t ++ " C=" ++ showNats w.calls ++ " X=" ++ showNats w.xcalls ++ " U=" ++ showNats w.upgrades ++
     " R=" ++ reads ++ " D=" ++ w.result.getD "?" ++ " S=" ++ toString w.shutdownCalls ++
     (if w.stuck.isEmpty then "" else " STUCK=" ++ joinWith "," w.stuck)
 
